@@ -67,13 +67,44 @@ def rule12(ctx, rep):
     )
     with r1, r2:
         ctors = [c for c in f.calls() if (prog.callee(c, f) or '') in ('external:datetime.datetime',)]
-        if len(ctors) < 3:
-            raise AnalysisError(f'_delay: {len(ctors)} datetime constructions found (expected day / dom / dow)')
+        combines = [c for c in f.calls() if (prog.callee(c, f) or '') == 'external:datetime.datetime.combine']
+        if len(ctors) + len(combines) < 3:
+            raise AnalysisError(f'_delay: {len(ctors) + len(combines)} datetime constructions found (expected day / dom / dow)')
+        # every constructed moment is aware by construction (it is subtracted from the aware `now`): added after seeded
+        # change C20-9, where datetime.combine(date, when.moment.time) inherited the zone of a time that rule_10 accepts
+        # naive - then - now raised TypeError for every directly built event and stopped the whole wake-up chain
+        for c in ctors + combines:
+            r1.instance()
+            is_comb = c in combines
+            aware = any(k.arg == 'tzinfo' for k in c.keywords) or (is_comb and len(c.args) >= 3) or (not is_comb and len(c.args) >= 8)
+            r1.check(
+                aware,
+                f'{f.qname}:{_branch_of(f, c)}-aware',
+                where(f, c),
+                'tzinfo given explicitly',
+                f'{norm(c)[:70]} takes its time zone from its operands: a moment whose time of day is naive (accepted by compliant.rule_10) makes `then - now` raise TypeError (offset-naive minus offset-aware) and defer() stops re-arming',
+            )
         trys = [t for t in f.own_nodes() if isinstance(t, ast.Try) and any(norm(h.type) in ('ValueError', 'Exception') if h.type is not None else True for h in t.handlers)]
-        for c in ctors:
+        for c in ctors + combines:
             kind = _branch_of(f, c)
             r1.instance()
-            y, m, d = arg(c, 0, 'year'), arg(c, 1, 'month'), arg(c, 2, 'day')
+            if c in combines:
+                # datetime.combine(<date>, <time>): the calendar fields are those of the date operand
+                dexp = c.args[0] if c.args else None
+                if isinstance(dexp, ast.Call) and (prog.callee(dexp, f) or '') == 'external:datetime.date':
+                    y, m, d = arg(dexp, 0, 'year'), arg(dexp, 1, 'month'), arg(dexp, 2, 'day')
+                elif dexp is not None:
+                    # one date object (possibly shifted by a timedelta): year / month / day come from it together
+                    r1.ok(f'{f.qname}:{kind}-constructor', 'calendar fields of one date object', where(f, c))
+                    if kind == 'dom':
+                        r2.instance()
+                        r2.instance()
+                        r2.note('monthly candidate built from an opaque date object: year carry / distance not evaluated')
+                    continue
+                else:
+                    y = m = d = None
+            else:
+                y, m, d = arg(c, 0, 'year'), arg(c, 1, 'month'), arg(c, 2, 'day')
             key = f'{f.qname}:{kind}-constructor'
             if y is None or m is None or d is None:
                 r1.fail(key, where(f, c), 'datetime constructed without explicit year/month/day')
@@ -395,6 +426,22 @@ def rule3(ctx, rep):
             r.instance()
             msgs = sorted({m for _n, m in pf.bad})
             r.check(not pf.bad, f'{f.qname}:due-event-queued', where(f, pf.bad[0][0] if pf.bad else None), 'the node of a due event is on the queue when defer returns', f'{f.qname}: a due event fills todo but: ' + '; '.join(msgs))
+        # an event whose moment is not knowable (a boot event that already fired) is skipped on its own: the handler of
+        # _DelayNotKnowableError sits inside the loop over the node's events (added after seeded change C20-8, which
+        # hoisted the try around the whole loop: every event listed after a fired boot event was never evaluated)
+        r.instance()
+        ploops = [l for l in f.own_nodes() if isinstance(l, ast.For) and any((gk := get_key(x)) and gk[1] == 'period' for x in ast.walk(l.iter))]
+        trys = [t for t in f.own_nodes() if isinstance(t, ast.Try) and any(h.type is not None and '_DelayNotKnowableError' in norm(h.type) for h in t.handlers)]
+        if not ploops or not trys:
+            raise AnalysisError('schedule.defer: the loop over the events of a node or the handler of _DelayNotKnowableError was not found')
+        inside = all(any(any(x is t for x in ast.walk(b)) for l in ploops for b in l.body) for t in trys)
+        r.check(
+            inside,
+            f'{f.qname}:unknowable-event-skips-itself-only',
+            where(f, trys[0]),
+            'the handler is inside the per-event loop',
+            f'{f.qname}: the handler of _DelayNotKnowableError encloses the loop over the events of a node: after one unknowable event (a boot event that has fired) the remaining events of that node are neither tested for being due nor given a timer',
+        )
         # the due window constant
         r.instance()
         consts = [n.comparators[0].value for n in f.own_nodes() if isinstance(n, ast.Compare) and len(n.ops) == 1 and isinstance(n.comparators[0], ast.Constant) and isinstance(n.comparators[0].value, (int, float)) and any(_local_def(f, x) for x in names_in(n.left))]
